@@ -16,7 +16,28 @@ for site in $sites; do
   sed -i "${l}${subst}" $sc/$f
   if ! (cd $sc && go build ./... >/dev/null 2>&1); then echo "$site NOBUILD" >> $out; git -C /repo worktree remove --force $sc; continue; fi
   res="MISSED"
-  for p in $props; do
+  plist="$props"
+  if [ "$props" = "auto" ]; then
+    case $f in
+      protocol/req/*|protocol/xreq/*) plist="C03 C04 C16 C18";;
+      protocol/rep/*|protocol/xrep/*) plist="C05 C09 C16 C18";;
+      protocol/respondent/*|protocol/xrespondent/*) plist="C05 C07 C09 C16";;
+      protocol/surveyor/*|protocol/xsurveyor/*) plist="C07 C16 C18 C19";;
+      protocol/sub/*|protocol/xsub/*|protocol/pub/*|protocol/xpub/*) plist="C06 C16 C19";;
+      protocol/pair*|protocol/xpair*) plist="C02 C09 C16 C18";;
+      protocol/push/*|protocol/xpush/*|protocol/pull/*|protocol/xpull/*) plist="C02 C16 C18";;
+      protocol/bus/*|protocol/xbus/*|protocol/star/*|protocol/xstar/*) plist="C08 C09 C16 C19";;
+      internal/core/*) plist="C13 C14 C10 C12 C19";;
+      transport/inproc/*) plist="C01 C10 C12";;
+      transport/ws/*) plist="C15 C01 C19 C16";;
+      transport/*) plist="C01 C15 C16 C13";;
+      message.go) plist="C01 C17";;
+      device.go) plist="C19 C09";;
+      macat/*) plist="C20";;
+      *) plist="C19";;
+    esac
+  fi
+  for p in $plist; do
     (cd $VDIR && VERIF_REPO=$sc timeout 1500 ./check $p --tier quick -noevidence > /tmp/mut_${name}_$p.log 2>&1); rc=$?
     if [ $rc -eq 1 ]; then lab=$(grep -h "label=" /tmp/mut_${name}_$p.log | sed 's/.*label=\([^ ]*\).*/\1/' | sort -u | head -2 | tr '\n' ' '); res="CAUGHT $p $lab"; break; fi
     if [ $rc -ne 0 ]; then res="INCONCLUSIVE $p rc=$rc"; fi
